@@ -85,6 +85,11 @@ func (g *gen) leaf() plgen.Stmt {
 	k := keyNames[g.r.Intn(len(keyNames))]
 	c := g.r.Intn(100)
 	switch {
+	case c < 2:
+		// a nested constant literal updated in place: every execution starts from the literal
+		return plgen.Stmt{K: "raw", Op: "acc", Arg: "acc = [[0]]; acc[0][0] = acc[0][0] + 1; obs(acc[0][0])"}
+	case c < 4:
+		return plgen.Stmt{K: "raw", Op: "acc", Arg: "acc = {\"a\": {\"n\": 0}}; acc[\"a\"][\"n\"] = acc[\"a\"][\"n\"] + 1; obs(acc[\"a\"][\"n\"])"}
 	case c < 16:
 		return plgen.Stmt{K: "raw", Op: "set", V: v, N: g.tag, Arg: fmt.Sprintf("%s = %d", v, g.tag)}
 	case c < 28:
@@ -377,6 +382,8 @@ func (m *model) stmt(f *mframe, s *plgen.Stmt) bool {
 			// value of the variable as this script sees it; unset variable reads the point key of that name (none) -> nil
 			x, _ := f.lookup(s.Arg2)
 			m.fields[s.V], m.hasKey[s.V] = x, true
+		case "acc":
+			m.trace = append(m.trace, obsRec{f.name, "", "1"})
 		case "obs_var":
 			x, _ := f.lookup(s.V)
 			m.trace = append(m.trace, obsRec{f.name, "var " + s.V, show(x)})
